@@ -75,6 +75,3 @@ func (ex *Exec) lockOp(c *callCtx, lock bool) Val {
 	return Val{}
 }
 
-// monitorEnter / monitorExit are refined by the concurrency layer (monitor invariants).
-func (ex *Exec) monitorEnter(c *callCtx, mu Val) {}
-func (ex *Exec) monitorExit(c *callCtx, mu Val)  {}
